@@ -19,6 +19,9 @@
 (*              several targets are alternatives (OR)                      *)
 (*  "case"      flag = TRUE upper / FALSE lower                            *)
 (*  "setvalue"  s2 = new string value for every value in scope             *)
+(*  "convtype"  flag = TRUE: strings become numbers (a string that is no    *)
+(*              numeral: the conversion fails), FALSE: numbers become the   *)
+(*              strings of their decimal numerals; other values stay        *)
 (*  "hashes"    hash-field splitting: m = Seq(<<algorithm name, <<>>>>) of   *)
 (*              the valid algorithms, s1 = field prefix, flag = leave the   *)
 (*              algorithm name out of the field name; an item on the field  *)
@@ -58,7 +61,7 @@ FieldTargets(T, name) ==
                  IF l.found THEN [k \in 1..Len(l.to) |-> l.to[k] \o Drop(name, Len(l.pre))] ELSE <<name>>)
            [] OTHER -> <<name>>
 IsFieldLevel(T) == T.type \in {"fmap", "fprefix", "fsuffix", "fprefixmap"}
-IsValueLevel(T) == T.type \in {"replace", "mapstr", "case", "setvalue"}
+IsValueLevel(T) == T.type \in {"replace", "mapstr", "case", "setvalue", "convtype"}
 
 \* ---- value-level rewrites -------------------------------------------------------------
 \* replace every occurrence of the literal run `from` by `to` inside the literal runs of parts
@@ -68,6 +71,18 @@ ReplaceIn(p, from, to) ==
     ELSE IF HasPrefix(p, from) THEN to \o ReplaceIn(Drop(p, Len(from)), from, to)
     ELSE <<p[1]>> \o ReplaceIn(Tail(p), from, to)
 UpperC(c) == IF IsLower(c) THEN c - 32 ELSE c
+\* decimal numerals
+RECURSIVE DecDigits(_)
+DecDigits(n) == IF n < 10 THEN <<48 + n>> ELSE DecDigits(n \div 10) \o <<48 + (n % 10)>>
+IntText(n) == IF n < 0 THEN <<45>> \o DecDigits(0 - n) ELSE DecDigits(n)
+RECURSIVE DecValue(_, _)
+DecValue(t, acc) == IF t = <<>> THEN acc ELSE DecValue(Tail(t), acc * 10 + (t[1] - 48))
+IsNumeral(t) == LET d == IF t # <<>> /\ t[1] = 45 THEN Tail(t) ELSE t IN
+                d # <<>> /\ Len(d) <= 9 /\ \A i \in 1..Len(d) : d[i] >= 48 /\ d[i] <= 57
+NumeralValue(t) == IF t[1] = 45 THEN 0 - DecValue(Tail(t), 0) ELSE DecValue(t, 0)
+\* texts Python's int()/float() may or may not read as a number (signs, fractions, exponents, blanks, underscores,
+\* "inf"/"nan" spellings): what the conversion makes of them is not documented
+LooseNumberChars == {43, 45, 46, 95, 32, 9} \cup (48..57) \cup {101, 69, 105, 110, 102, 116, 121, 97, 73, 78, 70, 84, 89, 65}
 ValueRw(T, v) ==      \* [st, vals]
     LET ok(vs) == [st |-> "ok", vals |-> vs] IN
     CASE T.type = "replace" ->
@@ -83,6 +98,18 @@ ValueRw(T, v) ==      \* [st, vals]
            (IF v.t \in {"str", "cased"}
             THEN ok(<<[v EXCEPT !.parts = [k \in 1..Len(@) |-> IF @[k] < 0 THEN @[k] ELSE IF T.flag THEN UpperC(@[k]) ELSE Lower(@[k])]]>>)
             ELSE ok(<<v>>))
+      [] T.type = "convtype" ->
+           (IF T.flag THEN      \* to number
+                (IF v.t \notin {"str", "cased"} THEN ok(<<v>>)
+                 ELSE IF HasPH(v) THEN [st |-> "unspec", vals |-> <<>>]
+                 ELSE IF HasWild(v) THEN [st |-> "fail", vals |-> <<>>]
+                 ELSE IF IsNumeral(v.parts) THEN ok(<<VNum(<<NumeralValue(v.parts), 1>>)>>)
+                 ELSE IF \A i \in 1..Len(v.parts) : v.parts[i] \in LooseNumberChars THEN [st |-> "unspec", vals |-> <<>>]
+                 ELSE [st |-> "fail", vals |-> <<>>])
+            ELSE                \* to string
+                (IF v.t # "num" THEN ok(<<v>>)
+                 ELSE IF v.num[2] # 1 THEN [st |-> "unspec", vals |-> <<>>]      \* how a fraction is written is not documented
+                 ELSE ok(<<VStr("str", IntText(v.num[1]), <<>>)>>)))
       [] T.type = "setvalue" -> (IF v.t = "exp" THEN [st |-> "unspec", vals |-> <<>>] ELSE ok(<<VStr("str", ParseStr(T.s2), <<>>)>>))
       [] OTHER -> ok(<<v>>)
 \* field references are renamed like fields
@@ -95,7 +122,12 @@ RECURSIVE ApplyVts(_, _, _)
 ApplyVts(vts, vs, k) ==       \* apply the value-level transformations vts[k..] to the values vs
     IF k > Len(vts) THEN [st |-> "ok", vals |-> vs]
     ELSE LET rs == [j \in 1..Len(vs) |->
-                      IF vs[j].t = "exp" /\ vts[k].type # "setvalue" THEN [st |-> "ok", vals |-> <<vs[j]>>]     \* expansions are not entered
+                      IF vs[j].t = "exp" /\ vts[k].type = "convtype" THEN      \* the alternatives of an expansion are converted one by one
+                          (LET ms == [m \in 1..Len(vs[j].vals) |-> ValueRw(vts[k], vs[j].vals[m])]
+                               mst == Worst([m \in 1..Len(ms) |-> ms[m].st])
+                           IN  IF mst # "ok" THEN [st |-> mst, vals |-> <<>>]
+                               ELSE [st |-> "ok", vals |-> <<[vs[j] EXCEPT !.vals = [m \in 1..Len(ms) |-> ms[m].vals[1]]]>>])
+                      ELSE IF vs[j].t = "exp" /\ vts[k].type # "setvalue" THEN [st |-> "ok", vals |-> <<vs[j]>>]     \* expansions are not entered
                       ELSE IF IsFieldLevel(vts[k]) THEN FieldRefRw(vts[k], vs[j]) ELSE ValueRw(vts[k], vs[j])]
              st == Worst([j \in 1..Len(rs) |-> rs[j].st])
          IN  IF st # "ok" THEN [st |-> st, vals |-> <<>>]
